@@ -41,9 +41,20 @@ example : markarrayRead [0,2, 0,0, 0,10, 0,5, 0,10, 0,1, 0,10, 0,20] 0 5 =
 example : (readSubtable [0,1, 0,10, 0,5, 0,100, 0xff,0xf6, 0,1, 0,2, 0,3, 0,5] 0 1).isOk = true := by
   decide +kernel
 
-/-- the key `10*type+format` wraps in uint16: lookup type 3 with format 65517 is read by
-`readGpos1_1` -/
-example : (readSubtable [0xff,0xed, 0,10, 0,5, 0,100, 0xff,0xf6, 0,1, 0,2, 0,3, 0,5] 0 3).isOk = true := by
+/-- error class of an outcome ("" when it is not an error) -/
+def errOf : Outcome α → String
+  | .err e => e
+  | _ => ""
+
+/-- FINDING (repaired in /repo 8867078): before the repair the key `10*type+format` wrapped in uint16
+— lookup type 3 with format 65517 was read by `readGpos1_1`, lookup type 1 with format 11 (the bytes
+of a 2.1 header) reached `readGpos2_1`; the repaired dispatcher rejects both -/
+example : (readSubtableOld [0xff,0xed, 0,10, 0,5, 0,100, 0xff,0xf6, 0,1, 0,2, 0,3, 0,5] 0 3).isOk = true ∧
+    errOf (readSubtable [0xff,0xed, 0,10, 0,5, 0,100, 0xff,0xf6, 0,1, 0,2, 0,3, 0,5] 0 3) = "invalid" := by
+  decide +kernel
+
+example : (readSubtableOld [0,11, 0,10, 0,0, 0,0, 0,0, 0,1, 0,0] 0 1).isOk = true ∧
+    errOf (readSubtable [0,11, 0,10, 0,0, 0,0, 0,0, 0,1, 0,0] 0 1) = "invalid" := by
   decide +kernel
 
 /-! ## the aliasing family of GPOS 2.1
